@@ -44,6 +44,9 @@ def explore_config(modname, cfg_id, params, tier, canary=False, want_funcs=False
         setattr(S, k, v)
     ENG.max_paths = getattr(S, 'max_paths', 400 if tier == 'quick' else 4000)
     ENG.merge_abs = getattr(S, 'merge_abs', False)
+    T.SNAP = getattr(S, 'snap_consts', 0)
+    T.FOLD = getattr(S, 'fold_ground_apps', False)
+    ENG.skip_undefined = getattr(S, 'skip_undefined', False)
     ENG.hash_tokens = getattr(S, 'hash_tokens', False)
     proxy.STATE.int_mode = getattr(S, 'int_mode', False)
     proxy.STATE.eps_zero = getattr(S, 'eps_zero', False)
@@ -128,6 +131,8 @@ def explore_config(modname, cfg_id, params, tier, canary=False, want_funcs=False
     res['infeasible'] = ENG.ninfeasible
     res['unknown_branches'] = ENG.unknown_branches
     res['branch_queries'] = ENG.nqueries
+    res['sampler_witnesses'] = ENG.sampler_hits
+    res['skipped_undefined'] = ENG.skipped_undefined
     res['solver_s'] += ENG.tsolver
     res['funcs'] = sorted(funcs_seen)
     res['stubs'] = sorted(proxy.STATE.stubs_used)
@@ -164,12 +169,17 @@ def _shadow_validate(mod, cparams, sctx, S, res):
     from . import terms as T
     from .scalars import ENG
     from .ctx import Ctx, Inadmissible, FuncTable
-    s = ENG.solver
-    if str(s.check()) != 'sat':
-        res['shadow_skipped'] += 1
-        return
-    model = sctx._nice(s, s.model())
-    values, funcs = sctx._values_from_model(model)
+    k = ENG.sampler.current(ENG.pc) if ENG.use_sampler and not sctx.uf_decl else None
+    if k is not None:
+        # a pool point of the branch sampler that satisfies the path condition with a margin
+        values, funcs = sctx._values_from_sample(k), {}
+    else:
+        s = ENG.solver
+        if str(s.check()) != 'sat':
+            res['shadow_skipped'] += 1
+            return
+        model = sctx._nice(s, s.model())
+        values, funcs = sctx._values_from_model(model)
     cctx = Ctx('conc', values=values, funcs={k: FuncTable.from_json(v) for k, v in funcs.items()}, settings=S)
     try:
         import warnings
@@ -440,7 +450,7 @@ def main(argv=None):
     exit_code = 0
     agg = dict(configs=0, paths=0, obligations=0, discharged=0, trivial=0, tolerance=0, facts=0,
                excluded_undefined=0, exceptions_excluded=0, infeasible=0, shadow_ok=0, shadow_skipped=0,
-               solver_s=0.0, branch_queries=0, unknown_branches=0)
+               solver_s=0.0, branch_queries=0, unknown_branches=0, sampler_witnesses=0, skipped_undefined=0)
     keys = set()
     funcs = set()
     stubs = set()
@@ -475,8 +485,8 @@ def main(argv=None):
         agg['configs'] += 1
         for k in ('paths', 'obligations', 'discharged', 'trivial', 'tolerance', 'facts', 'excluded_undefined',
                   'exceptions_excluded', 'infeasible', 'shadow_ok', 'shadow_skipped', 'solver_s',
-                  'branch_queries', 'unknown_branches'):
-            agg[k] += r[k]
+                  'branch_queries', 'unknown_branches', 'sampler_witnesses', 'skipped_undefined'):
+            agg[k] += r.get(k, 0)
         keys.update(r["keys"])
         funcs.update(r['funcs'])
         stubs.update(r['stubs'])
@@ -572,6 +582,9 @@ def main(argv=None):
             'discharged_by_box_tolerance': agg['tolerance'],
             'concrete_facts_checked': agg['facts'],
             'excluded_undefined_arithmetic': agg['excluded_undefined'] + agg['exceptions_excluded'],
+            'zero_denominator_inputs_assumed_away': agg['skipped_undefined'],
+            'branch_solver_queries': agg['branch_queries'],
+            'branch_sides_witnessed_by_sample_point': agg['sampler_witnesses'],
             'inconclusive': inconclusive[:100], 'inconclusive_count': len(inconclusive),
             'evaluations': agg['obligations'],
             'distinct_nontrivial': len(keys),
